@@ -110,3 +110,30 @@ Proof.
   do 4 (split; [vm_compute; reflexivity|]).
   vm_compute; reflexivity.
 Qed.
+
+(* non-vacuity for operands that are empty in one component: a receiver with vertices but no indices (nil index
+   slice), the same operand appended twice to it and once to another receiver, a material list with an empty range
+   before a non-empty one read by SplitOnUniqueMaterials on a derivation that shares the list; the operand (member 3),
+   the first result (4) and the base of the material list (7) report at the end what they reported when made *)
+Definition c01_example_hollow_ops : list op :=
+  [ONew Triangle [] 0; OSetAttr K3 0 6%N [[0;0;0]; [1;0;0]; [0;1;0]; [1;1;0]]%Z 0;          (* 1: four vertices, no triangle *)
+   ONew Triangle [[0]; [1]; [2]]%Z 3; OSetAttr K3 2 6%N [[5;0;0]; [6;0;0]; [5;1;0]]%Z 0;    (* 3: the operand *)
+   OAppend 1 3; OAppend 1 3; OAppend 3 1;                                                  (* 4, 5, 6 *)
+   OSetMaterials 5 [[1; 1]; [0; 2]; [0; 3]]%Z 2;                                           (* 7: ranges 1, 0, 0 *)
+   OMap K3 7 6%N 6%N [] false (FAdd [1;2;3]%Z);                                            (* 8 shares the list *)
+   OMulti 8 None [Triangle] [([[4]; [5]; [6]]%Z, Some 1%Z)];                               (* 9 *)
+   OSetIndices 4 [] 0; OAppend 10 3].                                                      (* 10, 11 *)
+
+Example c01_example_hollow :
+  let ops := c01_example_hollow_ops in
+  length (pool (run grow_double true ops 12)) = 12 /\
+  observe_member (run grow_double true ops 12) 3 = observe_member (run grow_double true ops 4) 3 /\
+  observe_member (run grow_double true ops 12) 4 = observe_member (run grow_double true ops 5) 4 /\
+  observe_member (run grow_double true ops 12) 7 = observe_member (run grow_double true ops 8) 7 /\
+  option_map o_idx (observe_member (run grow_double true ops 12) 4) = Some [[4]; [5]; [6]]%Z /\
+  option_map o_idx (observe_member (run grow_double true ops 12) 11) = Some [[7]; [8]; [9]]%Z.
+Proof.
+  cbv zeta.
+  do 5 (split; [vm_compute; reflexivity|]).
+  vm_compute; reflexivity.
+Qed.
